@@ -7,6 +7,8 @@
  *     __wrap_abort) before any out-of-bounds access (ASan; the bucket array
  *     is an exact-size heap block).
  *  C: tables using the built-in functions never abort (random histories).
+ *  D: the same fail-stop rule on every call of scripted table lives that vary HOW the function came to be in
+ *     force (kept by NULL resizes, swapped in, across shrink_to_fit / clear, next to a built-in function).
  */
 #include "vrt.h"
 #include "cstl/hash.h"
@@ -63,7 +65,7 @@ static size_t smallest_m_for(float F)
 }
 
 #define CHUNK_K ((size_t)1 << 18)
-static uint64_t a1_chunks, a2_cases, a3_cases, a4_cases, a5_cases, adiv_cases, b_cases, c_cases;
+static uint64_t a1_chunks, a2_cases, a3_cases, a4_cases, a5_cases, adiv_cases, b_cases, c_cases, d_cases;
 static size_t topk[64];
 static int ntopk;
 
@@ -341,6 +343,222 @@ static void run_cell(uint64_t idx)
     VRT_COUNT("B.cells");
 }
 
+/* ---------------- D: how the function came to be in force ---------------- */
+/* Every library call of a scripted life of the table is made with the abort expectation armed and judged by the
+ * same rule: it aborts iff the hash function returned a value >= the m it was called with during that call.
+ * The scripts vary how the function got there (kept by NULL resizes, swapped in, kept across shrink_to_fit /
+ * clear + fresh resize, following or followed by a built-in function) independently of what it returns. */
+static size_t fix_mod, mod_bad_m;
+static size_t modf_(size_t k, size_t m)    /* ignores m: in range only for tables of at least fix_mod buckets / small residues */
+{
+    const size_t v = k % fix_mod;
+    if (v >= m) { bad_returned++; mod_bad_m = m; }
+    return v;
+}
+static struct cstl_hash U;
+enum { X_RESIZE, X_REHASH, X_FOREACH, X_SHRINK, X_INSERT, X_FIND, X_ERASE, X_SWAP, X_CLEAR, NX };
+static const char *const xname[NX] = { "resize", "rehash", "foreach", "shrink_to_fit", "insert", "find", "erase", "swap", "clear" };
+enum { S_OTHER, S_DIRECT, S_NULL_P, S_NULL_F, S_NULL2_P, S_NULL2_F, S_SAME_P, S_SAME_F, S_SWAP_I, S_SWAP_P, S_SWNULL_P, S_SWNULL_F,
+       S_STF, S_STFNULL_P, S_CLEAR, S_CLEARB, S_BC_P, S_BC_F, S_CB_P, S_CB_F, NS };
+static const struct { const char *name; int pending; } dst[NS] = {
+    { "other-table", 0 }, { "direct", 0 }, { "null-resize.pending", 1 }, { "null-resize.finished", 0 },
+    { "two-null-resizes.pending", 1 }, { "two-null-resizes.finished", 0 },
+    { "same-function-again.pending", 1 }, { "same-function-again.finished", 0 },
+    { "swapped-in.idle", 0 }, { "swapped-in.pending", 1 },
+    { "swapped-in-then-null-resize.pending", 1 }, { "swapped-in-then-null-resize.finished", 0 },
+    { "after-shrink-to-fit", 0 }, { "shrink-to-fit-then-null-resize.pending", 1 },
+    { "clear-then-fresh-resize.idle", 0 }, { "builtin-life-then-clear.idle", 0 },
+    { "builtin-then-caller.pending", 1 }, { "builtin-then-caller.finished", 0 },
+    { "caller-then-builtin.pending", 1 }, { "caller-then-builtin.finished", 0 },
+};
+static int d_st, d_abort_st;
+static int d_xid[NX][2], d_sid[NS][2], d_ids_ready;
+static int d_visit(void *e, void *p) { (void)e; ++*(int *)p; return 0; }
+
+/* one library call under the rule; returns 1 when it aborted (the table is then abandoned) */
+static int d_step(struct cstl_hash *h, int x, size_t a, void *e, cstl_hash_func_t *f)
+{
+    const int before = bad_returned;
+    int aborted, arose, cnt = 0;
+    char nm[160];
+    if (!d_ids_ready) {
+        int i, j;
+        for (i = 0; i < NX; i++) for (j = 0; j < 2; j++) {
+            snprintf(nm, sizeof(nm), "D.entry.%s.%s", xname[i], j ? "bad-arose" : "in-range"); d_xid[i][j] = vrt_counter_id(nm);
+        }
+        for (i = 0; i < NS; i++) for (j = 0; j < 2; j++) {
+            snprintf(nm, sizeof(nm), "D.state.%s.%s", dst[i].name, j ? "bad-arose" : "in-range"); d_sid[i][j] = vrt_counter_id(nm);
+        }
+        d_ids_ready = 1;
+    }
+    vrt_state(dst[d_st].name);
+    switch (x) {
+    case X_RESIZE:
+        VRT_OP2("hash.resize", "n=%ld f=%ld (0 NULL, 1 the caller's, 2 other caller's, 3 div, 4 mul)", a,
+                f == NULL ? 0 : f == goodf ? 2 : f == cstl_hash_div ? 3 : f == cstl_hash_mul ? 4 : 1);
+        aborted = VRT_ABORTS(cstl_hash_resize(h, a, f)); break;
+    case X_REHASH:  VRT_OP0("hash.rehash", ""); aborted = VRT_ABORTS(cstl_hash_rehash(h)); break;
+    case X_FOREACH: VRT_OP0("hash.foreach", ""); aborted = VRT_ABORTS((void)cstl_hash_foreach(h, d_visit, &cnt)); break;
+    case X_SHRINK:  VRT_OP0("hash.shrink_to_fit", ""); aborted = VRT_ABORTS(cstl_hash_shrink_to_fit(h)); break;
+    case X_INSERT:  VRT_OP1("hash.insert", "key=%ld", a); aborted = VRT_ABORTS(cstl_hash_insert(h, a, e)); break;
+    case X_FIND:    VRT_OP1("hash.find", "key=%ld", a); aborted = VRT_ABORTS((void)cstl_hash_find(h, a, NULL, NULL)); break;
+    case X_ERASE:   VRT_OP1("hash.erase", "key=%ld", a); aborted = VRT_ABORTS(cstl_hash_erase(h, e)); break;
+    case X_SWAP:    VRT_OP0("hash.swap", "with the other table"); aborted = VRT_ABORTS(cstl_hash_swap(&T, &U)); break;
+    default:        VRT_OP0("hash.clear", ""); aborted = VRT_ABORTS(cstl_hash_clear(h, NULL)); break;
+    }
+    arose = bad_returned - before;
+    vrt_ctr[d_xid[x][arose != 0]]++;
+    vrt_ctr[d_sid[d_st][arose != 0]]++;
+    if (arose && !aborted) {
+        snprintf(nm, sizeof(nm), "hash.failstop.returned-normally.%s.%s", xname[x], dst[d_st].name);
+        vrt_fail(nm, "hash function returned a value >= m %d time(s) during %s but the call returned normally", arose, xname[x]);
+    }
+    if (!arose && aborted) {
+        snprintf(nm, sizeof(nm), "hash.failstop.abort-without-bad-value.%s.%s", xname[x], dst[d_st].name);
+        vrt_fail(nm, "%s aborted although every hash value was in range", xname[x]);
+    }
+    if (aborted) d_abort_st = d_st;
+    return aborted;
+}
+
+enum { P_DIRECT, P_NULL_P, P_NULL_F, P_NULL2_P, P_NULL2_F, P_SAME_P, P_SAME_F, P_SWAP_I, P_SWAP_P, P_SWNULL_P, P_SWNULL_F,
+       P_STF, P_STFNULL, P_CLEAR, P_CLEARB, P_BC_P, P_BC_F, P_CB_P, P_CB_F, NP };
+enum { K_SW_M, K_SW_MAX_ONE, K_SW_HI32, K_MOD_LO, K_MOD_HI, K_MOD_WIDE, K_DIV, K_IMPLICIT, NK };
+static const char *const kname[NK] = { "returns m for every key when switched on", "returns SIZE_MAX for one key when switched on",
+    "returns 2^32 + in-range when switched on", "key % larger count, small residues only", "key % larger count, call's key has a large residue",
+    "key % larger count, residents have large residues", "cstl_hash_div passed explicitly", "NULL on a fresh table (cstl_hash_mul)" };
+#define ND_SZ 4
+static const size_t d_big[ND_SZ] = { 64, 8, 3, 17 }, d_small[ND_SZ] = { 32, 5, 1, 16 };
+#define ND_FIN 7    /* final call: X_RESIZE .. X_ERASE */
+static uint64_t ndcells(void) { return (uint64_t)NP * ND_FIN * NK * 2 * ND_SZ; }
+#define ND_EL 12
+
+static void run_d(uint64_t idx)
+{
+    uint64_t i0 = idx;
+    int path, fin, kind, grow, sz, i, tpre, h_is_u, target;
+    size_t nbig, nsmall, ninst, nfin, nmid, rkey[8], finkey;
+    struct elem *de[ND_EL];
+    struct cstl_hash *h = &T;
+    cstl_hash_func_t *F;
+    path = i0 % NP; i0 /= NP;
+    fin = i0 % ND_FIN; i0 /= ND_FIN;
+    kind = i0 % NK; i0 /= NK;
+    grow = i0 % 2; i0 /= 2;
+    sz = i0 % ND_SZ;
+    nbig = d_big[sz]; nsmall = d_small[sz];
+    ninst = grow ? nsmall : nbig; nfin = grow ? nbig : nsmall;
+    nmid = (nsmall + nbig) / 2;
+    if (nmid == nsmall || nmid == nbig) nmid = nbig + 3;
+    F = kind <= K_SW_HI32 ? badf : kind <= K_MOD_WIDE ? modf_ : kind == K_DIV ? cstl_hash_div : NULL;
+    tpre = (int)(vrt_mix(0xD7, idx) & 1);
+    h_is_u = path == P_SWAP_I || path == P_SWAP_P || path == P_SWNULL_P || path == P_SWNULL_F;
+    vrt_case_note("D cell: path %s, then %s; function: %s; %zu -> %zu buckets%s", dst[path == P_DIRECT ? S_DIRECT : path + 1].name,
+                  xname[fin], kname[kind], ninst, nfin, h_is_u ? (tpre ? "; receiving table had its own function" : "; receiving table fresh") : "");
+    for (i = 0; i < ND_EL; i++) {
+        de[i] = vrt_alloc(sizeof(*de[i]));
+        memset(de[i], 0x5e, sizeof(*de[i]));
+        de[i]->magic = 0xe1e1; de[i]->id = i;
+    }
+    /* residents: residues below the smaller count, except for the "wide" kind; multipliers reach above bit 33 */
+    for (i = 0; i < 8; i++) {
+        const size_t res = kind == K_MOD_WIDE ? (size_t)i * (nbig - 1) / 7 : (size_t)i % nsmall;
+        rkey[i] = res + nbig * ((size_t)i + 1 + ((i & 1) ? (size_t)1 << 33 : 0));
+    }
+    bad_on = 0; bad_returned = 0; bad_nth = 0; bad_seen = 0; bad_scope = 0; fix_mod = nbig; mod_bad_m = 0; d_abort_st = -1;
+    bad_delta = kind == K_SW_M ? 0 : kind == K_SW_MAX_ONE ? SIZE_MAX : BAD_HI32;
+    memset(&T, 0x5e, sizeof(T)); memset(&U, 0x5e, sizeof(U));
+    if (idx & 1) { cstl_hash_init(&T, offsetof(struct elem, node)); cstl_hash_init(&U, offsetof(struct elem, node)); }
+    else { const struct cstl_hash ini = CSTL_HASH_INITIALIZER(struct elem, node); T = ini; U = ini; }
+#define STEP(hh, x, a, e, f) do { if (d_step(hh, x, a, e, f)) goto over; } while (0)
+#define FILL(hh) do { for (i = 0; i < 8; i++) STEP(hh, X_INSERT, rkey[i], de[i], NULL); } while (0)
+    if (h_is_u) {
+        h = &U;
+        if (tpre) {     /* the table that will receive the function by swap has a life of its own */
+            d_st = S_OTHER;
+            STEP(&T, X_RESIZE, 5, NULL, goodf);
+            STEP(&T, X_INSERT, 100, de[10], NULL);
+            STEP(&T, X_INSERT, 101, de[11], NULL);
+        }
+    }
+    d_st = S_DIRECT;
+    switch (path) {
+    case P_DIRECT:
+        STEP(h, X_RESIZE, nfin, NULL, F); FILL(h);
+        break;
+    case P_NULL_P: case P_NULL_F: case P_NULL2_P: case P_NULL2_F: case P_STF: case P_STFNULL:
+        STEP(h, X_RESIZE, ninst, NULL, F); FILL(h);
+        if (path == P_NULL2_P || path == P_NULL2_F) { STEP(h, X_RESIZE, nmid, NULL, NULL); d_st = S_NULL_P; }
+        STEP(h, X_RESIZE, nfin, NULL, NULL);
+        d_st = (path == P_NULL2_P || path == P_NULL2_F) ? S_NULL2_P : S_NULL_P;
+        if (path == P_NULL_F || path == P_NULL2_F) { STEP(h, X_REHASH, 0, NULL, NULL); d_st++; }
+        if (path == P_STF || path == P_STFNULL) { STEP(h, X_SHRINK, 0, NULL, NULL); d_st = S_STF; }
+        if (path == P_STFNULL) { STEP(h, X_RESIZE, nfin + 2, NULL, NULL); d_st = S_STFNULL_P; }
+        break;
+    case P_SAME_P: case P_SAME_F:
+        STEP(h, X_RESIZE, ninst, NULL, F); FILL(h);
+        STEP(h, X_RESIZE, nfin, NULL, F); d_st = S_SAME_P;
+        if (path == P_SAME_F) { STEP(h, X_REHASH, 0, NULL, NULL); d_st = S_SAME_F; }
+        break;
+    case P_SWAP_I:
+        STEP(h, X_RESIZE, nfin, NULL, F); FILL(h);
+        STEP(h, X_SWAP, 0, NULL, NULL); d_st = S_SWAP_I;
+        break;
+    case P_SWAP_P:
+        STEP(h, X_RESIZE, ninst, NULL, F); FILL(h);
+        STEP(h, X_RESIZE, nfin, NULL, NULL); d_st = S_NULL_P;
+        STEP(h, X_SWAP, 0, NULL, NULL); d_st = S_SWAP_P;
+        break;
+    case P_SWNULL_P: case P_SWNULL_F:
+        STEP(h, X_RESIZE, ninst, NULL, F); FILL(h);
+        STEP(h, X_SWAP, 0, NULL, NULL); d_st = S_SWAP_I;
+        STEP(&T, X_RESIZE, nfin, NULL, NULL); d_st = S_SWNULL_P;
+        if (path == P_SWNULL_F) { STEP(&T, X_REHASH, 0, NULL, NULL); d_st = S_SWNULL_F; }
+        break;
+    case P_CLEAR: case P_CLEARB:
+        STEP(h, X_RESIZE, ninst, NULL, path == P_CLEARB ? NULL : F); FILL(h);
+        if (idx & 2) STEP(h, X_RESIZE, nmid, NULL, NULL);       /* cleared while a rehash is pending */
+        STEP(h, X_CLEAR, 0, NULL, NULL);
+        d_st = path == P_CLEARB ? S_CLEARB : S_CLEAR;
+        STEP(h, X_RESIZE, nfin, NULL, F); FILL(h);
+        break;
+    case P_BC_P: case P_BC_F:
+        STEP(h, X_RESIZE, ninst, NULL, (idx & 2) ? cstl_hash_div : NULL); FILL(h);
+        STEP(h, X_RESIZE, nfin, NULL, F); d_st = S_BC_P;
+        if (path == P_BC_F) { STEP(h, X_REHASH, 0, NULL, NULL); d_st = S_BC_F; }
+        break;
+    default:
+        STEP(h, X_RESIZE, ninst, NULL, F); FILL(h);
+        STEP(h, X_RESIZE, nfin, NULL, (idx & 2) ? cstl_hash_div : cstl_hash_mul); d_st = S_CB_P;
+        if (path == P_CB_F) { STEP(h, X_REHASH, 0, NULL, NULL); d_st = S_CB_F; }
+        break;
+    }
+    /* the final call on the table that now has the function */
+    target = kind == K_MOD_WIDE ? 7 : 1;
+    finkey = rkey[target];
+    if (fin == X_INSERT) finkey = (kind == K_MOD_HI ? nbig - 1 : 0) + nbig * 1000;
+    if (fin == X_FIND && kind == K_MOD_HI) finkey = nbig - 1 + nbig * 2000;       /* an absent key */
+    if (kind == K_SW_MAX_ONE) { bad_scope = 1; bad_key = fin >= X_INSERT ? finkey : rkey[2]; }
+    bad_on = kind <= K_SW_HI32;
+    STEP(&T, fin, fin == X_RESIZE ? nfin + 1 : finkey, fin == X_INSERT ? de[8] : de[target], NULL);
+    bad_on = 0;
+    if (h_is_u && tpre) { d_st = S_OTHER; STEP(&U, X_FIND, 100, NULL, NULL); }   /* what went the other way keeps working */
+    VRT_COUNT("D.cells.completed-without-abort");
+over:
+#undef STEP
+#undef FILL
+    bad_on = 0;
+    if (d_abort_st >= 0) {
+        VRT_COUNT("D.cells.aborted-as-required");
+        if (F == modf_ && mod_bad_m == nsmall && !grow) VRT_COUNT("D.mod.in-range-when-installed-bad-for-later-smaller-count");
+        if (F == modf_ && mod_bad_m == nsmall && grow && dst[d_abort_st].pending) VRT_COUNT("D.mod.in-range-for-new-count-bad-for-old-count-being-swept");
+    }
+    cstl_hash_clear(&T, NULL); cstl_hash_clear(&U, NULL);
+    for (i = 0; i < ND_EL; i++) vrt_free(de[i]);
+    VRT_COUNT("D.cells");
+    vrt_sig(0, vrt_mix(0xD0, idx));
+}
+
 /* ---------------- C: built-in functions never abort ---------------- */
 static void run_c(uint64_t idx)
 {
@@ -367,6 +585,21 @@ static void run_c(uint64_t idx)
             size_t n = 1 + vrt_below(&g, vrt_below(&g, 4) ? 16 : 5000);
             VRT_OP2("hash.resize", "n=%ld f=%ld", n, i & 1);
             cstl_hash_resize(&T, n, vrt_below(&g, 3) == 0 ? NULL : (vrt_below(&g, 2) ? cstl_hash_div : cstl_hash_mul));
+        } else if (r == 9 && vrt_below(&g, 3) == 0) {
+            /* the calls that consult the function without a key, and a second life after clear */
+            int cnt = 0, j;
+            switch (vrt_below(&g, 4)) {
+            case 0: VRT_OP0("hash.rehash", ""); cstl_hash_rehash(&T); VRT_COUNT("C.rehash"); break;
+            case 1: VRT_OP0("hash.foreach", ""); cstl_hash_foreach(&T, d_visit, &cnt); VRT_COUNT("C.foreach"); break;
+            case 2: VRT_OP0("hash.shrink_to_fit", ""); cstl_hash_shrink_to_fit(&T); VRT_COUNT("C.shrink_to_fit"); break;
+            default:
+                VRT_OP0("hash.clear", ""); cstl_hash_clear(&T, NULL);
+                for (j = 0; j < 64; j++) live[j] = 0;
+                VRT_OP1("hash.resize", "n=%ld (fresh, after clear)", 1 + (i & 15));
+                cstl_hash_resize(&T, 1 + (i & 15), (i & 16) ? NULL : (i & 32) ? cstl_hash_div : cstl_hash_mul);
+                VRT_COUNT("C.clear-then-fresh-resize");
+                break;
+            }
         } else if (r < 5 && !live[e]) {
             VRT_OP1("hash.insert", "key=%ld", keys[e]);
             cstl_hash_insert(&T, keys[e], p[e]); live[e] = 1;
@@ -397,7 +630,8 @@ static uint64_t ncases(void)
     c_cases = vrt_thorough ? 4000 : 400;
     a4_cases = 256;
     a5_cases = vrt_thorough ? 256 : 32;
-    return a1_chunks + a2_cases + a3_cases + adiv_cases + b_cases + c_cases + a4_cases + a5_cases;
+    d_cases = ndcells();
+    return a1_chunks + a2_cases + a3_cases + adiv_cases + b_cases + c_cases + a4_cases + a5_cases + d_cases;
 }
 static void run_case(uint64_t idx)
 {
@@ -415,7 +649,9 @@ static void run_case(uint64_t idx)
     idx -= c_cases;
     if (idx < a4_cases) { run_a4(idx); return; }
     idx -= a4_cases;
-    run_a5(idx);
+    if (idx < a5_cases) { run_a5(idx); return; }
+    idx -= a5_cases;
+    run_d(idx);
 }
 static void winit(void)
 {
@@ -429,7 +665,19 @@ static void wfini(void)
 }
 static const char *const required[] = {
     "A.mul.evaluations", "A.div.evaluations", "A.mul.scale-factor-grid-points", "A.mul.float-grid-keys", "A.mul.all-32-bit-keys", "A.mul.random-64-bit-keys",
-    "B.cells.aborted-as-required", "B.cells.bad-value-on-relocation-path", "C.histories-without-abort", NULL
+    "B.cells.aborted-as-required", "B.cells.bad-value-on-relocation-path", "C.histories-without-abort",
+    "C.rehash", "C.foreach", "C.shrink_to_fit", "C.clear-then-fresh-resize",
+    "D.cells.aborted-as-required", "D.cells.completed-without-abort",
+    "D.mod.in-range-when-installed-bad-for-later-smaller-count", "D.mod.in-range-for-new-count-bad-for-old-count-being-swept",
+    "D.state.null-resize.pending.bad-arose", "D.state.null-resize.finished.bad-arose", "D.state.two-null-resizes.finished.bad-arose",
+    "D.state.same-function-again.pending.bad-arose", "D.state.same-function-again.finished.bad-arose",
+    "D.state.swapped-in.idle.bad-arose", "D.state.swapped-in.pending.bad-arose", "D.state.swapped-in-then-null-resize.finished.bad-arose",
+    "D.state.after-shrink-to-fit.bad-arose", "D.state.shrink-to-fit-then-null-resize.pending.bad-arose",
+    "D.state.clear-then-fresh-resize.idle.bad-arose", "D.state.builtin-life-then-clear.idle.bad-arose",
+    "D.state.builtin-then-caller.pending.bad-arose", "D.state.caller-then-builtin.pending.bad-arose",
+    "D.state.caller-then-builtin.finished.in-range",
+    "D.entry.insert.bad-arose", "D.entry.find.bad-arose", "D.entry.erase.bad-arose", "D.entry.rehash.bad-arose", "D.entry.foreach.bad-arose",
+    "D.entry.resize.bad-arose", "D.entry.shrink_to_fit.bad-arose", NULL
 };
 static const struct vrt_harness H = { "hashrange", ncases, run_case, winit, wfini, required, 16 };
 int main(int argc, char **argv) { return vrt_main(argc, argv, &H); }
